@@ -669,7 +669,8 @@ theorem Shp.setUpperDo_step (s : Shp) (h : s.WF) (hin : s.Input) (p : Param) :
 
 /-- step 4, the branch that touches the lower bound -/
 theorem Shp.setLowerDo_step (s : Shp) (h : s.WF) (hin : s.Input) (n : Nat) (p : Param) :
-    ∃ s' : Shp, setLowerDo s.low.isSome n s.build p = s'.build ∧ s'.WF ∧ s'.ini = s.ini ∧ s'.up = s.up ∧
+    ∃ s' : Shp, setLowerDo s.low.isSome n s.build p = s'.build ∧ s'.WF ∧ s'.ini = s.ini ∧
+      (s'.up = s.up ∨ (s'.up = none ∧ s.low.isSome = true ∧ needLower p = false)) ∧
       s'.low.map (fun q => q.1.val) = (if needLower p then some p.lower else none) ∧ s'.tail = s.tail := by
   unfold setLowerDo
   cases hl : s.low with
@@ -683,19 +684,19 @@ theorem Shp.setLowerDo_step (s : Shp) (h : s.WF) (hin : s.Input) (n : Nat) (p : 
       have e2 := Shp.addParens_build s1 h1 hin1 (by simp [s1])
       cases hp : s.lp with
       | none =>
-        refine ⟨{ s1 with lp := some tokLpar, rp := some tokRpar }, ?_, h1.setPar, rfl, rfl, ?_, rfl⟩
+        refine ⟨{ s1 with lp := some tokLpar, rp := some tokRpar }, ?_, h1.setPar, rfl, Or.inl rfl, ?_, rfl⟩
         · simp only [Option.isSome_none, Bool.not_false, Bool.and_self, ↓reduceIte, e1]
           rw [e2]
           simp [s1, hp]
         · simp [s1, numNode]
       | some x =>
-        refine ⟨s1, ?_, h1, rfl, rfl, ?_, rfl⟩
+        refine ⟨s1, ?_, h1, rfl, Or.inl rfl, ?_, rfl⟩
         · simp only [Option.isSome_none, Bool.not_false, Bool.and_self, ↓reduceIte, e1]
           rw [e2]
           simp [s1, hp]
         · simp [s1, numNode]
     | false =>
-      refine ⟨s, ?_, h, rfl, rfl, ?_, rfl⟩
+      refine ⟨s, ?_, h, rfl, Or.inl rfl, ?_, rfl⟩
       · have := Shp.replaceBound_low s h (numNode .low p.lowerS p.lower) (by simp [numNode])
         simp [hl] at this
         simp [this]
@@ -704,17 +705,29 @@ theorem Shp.setLowerDo_step (s : Shp) (h : s.WF) (hin : s.Input) (n : Nat) (p : 
   | some q =>
     cases hn : needLower p with
     | false =>
-      have e1 := Shp.removeLower_build s h (by simp [hl])
+      -- the upper bound, if one is still there, goes first (6b0a1ad)
+      let s0 : Shp := { s with up := none }
+      have h0 : s0.WF := h.noUp
+      have e0 : (if hasK .up s.build then removeUpper s.build else s.build) = s0.build := by
+        rw [Shp.hasK_up s h]
+        cases hu : s.up with
+        | none => simp [s0, hu]; rw [← hu]
+        | some u => simp [s0, Shp.removeUpper_build s h (by simp [hu])]
+      have e1 := Shp.removeLower_build s0 h0 (by simp [s0, hl])
       by_cases h1 : n = 1
-      · refine ⟨{ s with low := none, lp := none, rp := none }, ?_, h.noLow.noPar, rfl, rfl, ?_, rfl⟩
-        · simp [e1, h1, Shp.removeParens_build _ h.noLow]
+      · refine ⟨{ s0 with low := none, lp := none, rp := none }, ?_, h0.noLow.noPar, rfl,
+          Or.inr ⟨rfl, by simp, rfl⟩, ?_, rfl⟩
+        · simp only [Option.isSome_some, Bool.not_true, Bool.false_and, Bool.false_eq_true, ↓reduceIte,
+            Bool.not_false, Bool.and_self, e0, h1, e1]
+          exact Shp.removeParens_build _ h0.noLow
         · simp
-      · refine ⟨{ s with low := none }, ?_, h.noLow, rfl, rfl, ?_, rfl⟩
-        · simp [e1, h1]
+      · refine ⟨{ s0 with low := none }, ?_, h0.noLow, rfl, Or.inr ⟨rfl, by simp, rfl⟩, ?_, rfl⟩
+        · simp only [Option.isSome_some, Bool.not_true, Bool.false_and, Bool.false_eq_true, ↓reduceIte,
+            Bool.not_false, Bool.and_self, e0, h1, e1]
         · simp
     | true =>
       refine ⟨{ s with low := some (numNode .low p.lowerS p.lower, q.2) }, ?_,
-        h.setLow _ _ (by simp [numNode]) (h.low q.1 q.2 (by simp [hl])).2, rfl, rfl, ?_, rfl⟩
+        h.setLow _ _ (by simp [numNode]) (h.low q.1 q.2 (by simp [hl])).2, rfl, Or.inl rfl, ?_, rfl⟩
       · have := Shp.replaceBound_low s h (numNode .low p.lowerS p.lower) (by simp [numNode])
         simp [hl] at this
         simp [this]
@@ -816,7 +829,7 @@ theorem Shp.setUpper_step (s : Shp) (h : s.WF) (hin : s.Input) (p : Param) :
 /-- step 4 -/
 theorem Shp.setLower_step (s : Shp) (h : s.WF) (hin : s.Input) (n : Nat) (removedU : Bool) (p : Param) :
     ∃ s' : Shp, setLower s.low.isSome n s.lowV removedU s.build p = s'.build ∧ s'.WF ∧ s'.ini = s.ini ∧
-      s'.up = s.up ∧ s'.tail = s.tail ∧
+      (s'.up = s.up ∨ (s'.up = none ∧ s.low.isSome = true ∧ needLower p = false)) ∧ s'.tail = s.tail ∧
       (minLower.lt p.lower = true ∨ p.lower = .ninf → lowerOf s'.lowV = .ok p.lower) ∧
       (curLower s.lowV = p.lower → (s.low = none → needLower p = false) →
         (removedU = true → needLower p = true) → s' = s) := by
@@ -842,7 +855,7 @@ theorem Shp.setLower_step (s : Shp) (h : s.WF) (hin : s.Input) (n : Nat) (remove
         | some q => simp [hs] at hc
       · have := h3 hc.1.1
         simp [this] at hc
-  · refine ⟨s, by rw [if_neg hc], h, rfl, rfl, rfl, ?_, fun _ _ _ => rfl⟩
+  · refine ⟨s, by rw [if_neg hc], h, rfl, Or.inl rfl, rfl, ?_, fun _ _ _ => rfl⟩
     intro hL
     simp only [Bool.or_eq_true, Bool.and_eq_true, Bool.not_eq_true', decide_eq_true_eq, not_or, ne_eq,
       Decidable.not_not] at hc
@@ -924,7 +937,7 @@ theorem Shp.updItem_steps (s : Shp) (h : s.WF) (hin : s.Input) (p : Param) :
       (minLower.lt p.lower = true ∨ p.lower = .ninf → lowerOf s4.lowV = .ok p.lower) ∧
       (s.ini.val = p.init → s4.ini = s.ini) ∧
       (hasK .fix s.tail = p.fix → s4.tail = s.tail) ∧
-      (curUpper s.upV = p.upper → s4.up = s.up) ∧
+      (curUpper s.upV = p.upper → (s.low.isSome = true → needLower p = true) → s4.up = s.up) ∧
       (curLower s.lowV = p.lower → (s.low = none → needLower p = false) →
         (needLower p = true ∨ curUpper s.upV = p.upper) → s4.low = s.low) ∧
       (s.ini.val = p.init → hasK .fix s.tail = p.fix → curUpper s.upV = p.upper → curLower s.lowV = p.lower →
@@ -950,15 +963,28 @@ theorem Shp.updItem_steps (s : Shp) (h : s.WF) (hin : s.Input) (p : Param) :
     rw [ht4, ht3, hm2, ht1]
   · intro hU
     have := hU3 hU
-    simpa [Shp.upV, hu4] using this
+    rcases hu4 with hu4 | ⟨hu4, _, hnl⟩
+    · simpa [Shp.upV, hu4] using this
+    · -- the upper bound went with the lower bound: then no upper bound is needed, i.e. it is +inf
+      have hnu : needUpper p = false := by
+        simp only [needLower, Bool.or_eq_false_iff] at hnl; exact hnl.2
+      have hpu : p.upper = .pinf := by
+        rcases hU with hu | hu
+        · simp [needUpper, hu] at hnu
+        · exact hu
+      simp [Shp.upV, hu4, upperOf, hpu]
   · intro hv
     rw [hi4, hi3, hi2, hid1 hv]
   · intro hf
     have : s2 = s1 := hid2 (by rw [ht1]; exact hf)
     rw [ht4, ht3, this, ht1]
-  · intro hc
+  · intro hc hneed
     have : s3 = s2 := hid3 (by rw [hup2]; exact hc)
-    rw [hu4, this, hu2, hu1]
+    rcases hu4 with hu4 | ⟨_, hsome, hnl⟩
+    · rw [hu4, this, hu2, hu1]
+    · rw [hlow3'] at hsome
+      rw [hneed hsome] at hnl
+      exact absurd hnl (by simp)
   · intro hc hnone hor
     have hs3 : s4 = s3 := by
       apply hid4
